@@ -508,15 +508,11 @@ class DynamicSlicer:
         node = cdg.get_basic_block_node(instr.node_id)
 
         # The ancestors of the current node in the control-dependence graph (CDG) are the
-        # dominator nodes on which the current instruction is control dependent. We also
-        # handle the special case where there is a loop in the CDG.
+        # dominator nodes on which the current instruction is control dependent. This
+        # includes the nodes that are part of the same loop in the CDG, e.g., the header of
+        # a loop and a condition in its body that can leave the loop depend on each other.
         dominator_nodes = cdg.get_ancestors(node)
-        dominated_nodes = cdg.get_descendants(node)
-        if any(
-            isinstance(dominator_node, BasicBlockNode)
-            for dominator_node in dominator_nodes
-            if dominator_node not in dominated_nodes
-        ):
+        if any(isinstance(dominator_node, BasicBlockNode) for dominator_node in dominator_nodes):
             self._logger.debug("CONTROL DEPENDENCIES (DOMINATED): %s", instr)
             context.instr_ctrl_deps.add(instr)
 
